@@ -60,6 +60,7 @@ func (d *c07Driver) arm(ch *c07Chan, op string) *c07Countdown {
 	}
 	cd := c07NewCountdown(d.armN)
 	d.armN = -1
+	d.lastCD = cd
 	d.surfs[0].SetCtx(ch, cd)
 	d.r.Count("cancel.armed."+op, 1)
 	d.tracef("  (countdown context: cancel after %d polls, op=%s)", cd.n, op)
